@@ -658,7 +658,22 @@ impl<'a, 'ast> Visit<'ast> for FnScan<'a> {
             let args: Vec<String> = m.args.iter().map(|a| { let (x, y) = brange(a); self.src[x..y].to_string() }).collect();
             let mut all = vec![recv.clone()];
             all.extend(args.iter().cloned());
-            self.push_edit(s, e, format!("{}({})", f, all.join(", ")), "R3:method-to-fn", all);
+            if f.contains("$recv") && f.contains("$args") && !m.args.is_empty() {
+                // template form: rewrite only around the arguments, so that rules still apply inside them
+                let mut parts = f.splitn(2, "$args");
+                let pre = parts.next().unwrap_or("").replace("$recv", &recv);
+                let post = parts.next().unwrap_or("").to_string();
+                let a0 = brange(m.args.first().unwrap()).0;
+                let a1 = brange(m.args.last().unwrap()).1;
+                self.push_edit(s, a0, pre, "R3:method-to-fn-prefix", vec![recv.clone()]);
+                self.push_edit(a1, e, post, "R3:method-to-fn-suffix", vec![]);
+                for a in m.args.iter() {
+                    self.visit_expr(a);
+                }
+                return;
+            }
+            let text = format!("{}({})", f, all.join(", "));
+            self.push_edit(s, e, text, "R3:method-to-fn", all);
             return;
         }
         // R8 X.iter().position(F) / rposition(F)
